@@ -167,6 +167,9 @@ type verifReqVals struct {
 	user, pass                                   string
 }
 
+// verifFixedText: texts are fixed and distinct per call instead of solver strings (VerifC20bSeq).
+var verifFixedText bool
+
 // credsMode: 0 = nil or present (choice), 1 = present
 func verifNewReqVals(call int, credsMode int) *verifReqVals {
 	p := verifName("c", call)
@@ -182,14 +185,22 @@ func verifNewReqVals(call int, credsMode int) *verifReqVals {
 		fresh:      verifI64(p + ".freshness"),
 		linTimeout: verifI64(p + ".linTimeout"),
 		level:      int32(verifInt(p+".level", 0, 4)),
-		sql:        verifText(verifString(p+".sql", 4), 10*call+1),
-		id:         verifText(verifString(p+".id", 3), 10*call+2),
 		data:       verifBytes(p+".data", 2),
+	}
+	if verifFixedText {
+		v.sql, v.id = verifName("SELECT ", call), verifName("node-", call)
+	} else {
+		v.sql = verifText(verifString(p+".sql", 4), 10*call+1)
+		v.id = verifText(verifString(p+".id", 3), 10*call+2)
 	}
 	if credsMode == 1 || verifChoice(p+".creds", 2) == 1 {
 		v.hasCreds = true
-		v.user = verifText(verifString(p+".user", 3), 10*call+3)
-		v.pass = verifText(verifString(p+".pass", 3), 10*call+4)
+		if verifFixedText {
+			v.user, v.pass = verifName("user-", call), verifName("secret-", call)
+		} else {
+			v.user = verifText(verifString(p+".user", 3), 10*call+3)
+			v.pass = verifText(verifString(p+".pass", 3), 10*call+4)
+		}
 	}
 	return v
 }
@@ -622,9 +633,9 @@ type verifWorld struct {
 	attempts []*verifAttempt
 	nres     int
 
-	usedClosed  bool // Read/Write on a connection after its real Close
-	noDeadline  bool // Read/Write without a deadline
-	timeout     time.Duration
+	usedClosed bool // Read/Write on a connection after its real Close
+	noDeadline bool // Read/Write without a deadline
+	timeout    time.Duration
 }
 
 type verifConn struct {
@@ -900,6 +911,7 @@ const verifTimeout = 5 * time.Second
 
 func verifNewWorld(mode int) (*verifWorld, *Client) {
 	verifEncs = nil
+	verifFixedText = false
 	w := &verifWorld{mode: mode, budget: 1 << 30, timeout: 30 * time.Second, nres: 1}
 	cl := NewClient(&verifDialer{w: w}, w.timeout)
 	return w, cl
@@ -1273,6 +1285,7 @@ func VerifC20bPoolUsers() {
 func VerifC20bSeq() {
 	verifPanicsAreViolations()
 	w, cl := verifNewWorld(verifModeReduced)
+	verifFixedText = true
 	n := 2 + verifTier()
 	for i := 0; i < n; i++ {
 		kind := 0
